@@ -353,8 +353,7 @@ func vfRetire(c *kit.Case, e *vfEnv, vc *kit.VClock) bool {
 				return true
 			}
 			// a flusher was started but has not created its ticker yet, or is in its final flush
-			n := e.tickerCount()
-			vfWaitUntil(func() bool { return e.tickerCount() > n || vfLabelled(c.ID) == 0 }, 5*time.Second)
+			vfWaitUntil(func() bool { return e.liveTicker() != nil || vfLabelled(c.ID) == 0 }, vfWatchdog)
 			continue
 		}
 		vc.Advance(vfIdleJump)
@@ -493,8 +492,7 @@ func vfRunScript(c *kit.Case, vc *kit.VClock) {
 			if t == nil {
 				if added > 0 && vfLabelled(c.ID) > 0 {
 					// a flusher exists but has not created its ticker yet
-					n := e.tickerCount()
-					vfWaitUntil(func() bool { return e.tickerCount() > n || vfLabelled(c.ID) == 0 }, 5*time.Second)
+					vfWaitUntil(func() bool { return e.liveTicker() != nil || vfLabelled(c.ID) == 0 }, vfWatchdog)
 					t = e.liveTicker()
 				}
 				if t == nil {
@@ -887,7 +885,7 @@ func TestVerifC11W(t *testing.T) {
 	lab := func(fn func(c *kit.Case, vc *kit.VClock)) func(c *kit.Case) {
 		return func(c *kit.Case) { kit.WithLabel(c.ID, func() { fn(c, vc) }) }
 	}
-	kit.Run(t, "C11", "script", kit.N(1600, 40000), lab(vfRunScript))
-	kit.Run(t, "C11", "scripted-concurrent", kit.N(800, 20000), lab(vfRunConcurrent))
+	kit.Run(t, "C11", "script", kit.N(12000, 200000), lab(vfRunScript))
+	kit.Run(t, "C11", "scripted-concurrent", kit.N(4000, 60000), lab(vfRunConcurrent))
 	kit.End()
 }
